@@ -24,6 +24,9 @@ CtVals == {Nat2I(0), Nat2I(60), Z2I(11544), Nat2I(1), Neg2I(1), I63,
            T(<<194,160,97,47,98>>),         \* NBSP "a/b"
            T(<<97,47,98,227,128,128>>),     \* "a/b" IDEOGRAPHIC SPACE
            T(<<47>>),                       \* "/"
+           T(<<65, 47, 98, 59, 32, 81, 61, 90>>),     \* "A/b; Q=Z": upper case and an INTERIOR space are fine
+           T(<<97, 47, 98, 9, 99>>),                  \* "a/b<TAB>c"
+           T(<<97, 194, 160, 47, 98>>),               \* "a<NBSP>/b"
            T(<<195,169,195,169,47,98>>),    \* "éé/b"  multi-byte characters before the slash
            T(<<230,151,165,47,120>>),       \* "日/x"
            T(<<97,47,240,159,152,128>>),    \* "a/😀"
